@@ -101,9 +101,12 @@ async def run_superstep_async(
         input_versions = {param: state.get_version(param) for param in node.inputs}
         wait_for_versions = {name: state.get_version(name) for name in node.wait_for}
 
-        # Check cache before execution
+        # Check cache before execution. An interrupt whose response the caller supplied (resume) is neither
+        # served from nor stored in the cache: only auto-resolved responses are cached, and a stored one
+        # must never override the response given for this run.
         cache_key, cached_outputs = ("", None)
-        if cache is not None:
+        resuming = node.is_interrupt and node.name not in state.node_executions and all(o in state.values for o in node.data_outputs)
+        if cache is not None and not resuming:
             cache_key, cached_outputs = check_cache(node, inputs, cache)
 
         if cached_outputs is not None:
